@@ -9,7 +9,7 @@ confirmed from pywt.Wavelet(name).orthogonal, otherwise the case is outside the 
 """
 import numpy as np
 
-from vf.common import Plan, relayout, crandn, held, violated, inconclusive, rng_for, nrm, inner, pick
+from vf.common import structured, Plan, relayout, crandn, held, violated, inconclusive, rng_for, nrm, inner, pick
 
 SPEC = {
     "deciding_monitors": ["fn:fwt", "fn:iwt", "apply:Wavelet", "in:layout:F", "in:layout:strided", "in:complex64", "in:float32"],
@@ -127,7 +127,9 @@ def run_one(case):
         warnings.simplefilter("ignore")
         try:
             W = sp.linop.Wavelet(shape, axes=axes, wave_name=name, level=level)
-            x = relayout(crandn(rng, shape, dt), sum(case["rs"]) % 6)   # 1-3: F / T / strided
+            with structured((sum(case["rs"]) // 3) % 9 if sum(case["rs"]) % 2 else 0):
+                x0_ = crandn(rng, shape, dt)
+            x = relayout(x0_, sum(case["rs"]) % 6)   # 1-3: F / T / strided
             mag = [1, 1, 1, 1e-10, 1e8][sum(case["rs"]) % 5]     # the transform is homogeneous
             if mag != 1:
                 x = x * x.dtype.type(mag)
